@@ -39,6 +39,8 @@ def names_interesting(names: Iterable[str], extra: Callable[[ast.AST], bool] | N
             return True
         if isinstance(n, ast.Await):
             return True
+        if isinstance(n, ast.Constant) and isinstance(n.value, str) and n.value in s:
+            return True
         return bool(extra and extra(n))
 
     return pred
